@@ -124,7 +124,7 @@ func ZZ_Inbox() {
 // the worker is busy): the worker must split it into batches and still hand every message to Invoke exactly once
 // and in order, and come to rest idle over an empty ring. One schedule (no concurrency is needed to split).
 func ZZ_Inbox_Backlog() {
-	size := []int{1, 1024, 4096}[zzrt.Choose(3)]
+	size := []int{1, 1000, 4096}[zzrt.Choose(3)] // 1000: not a power of two
 	n := messageBatchSize + []int{1, 4}[zzrt.Choose(2)]
 	in := NewInbox(size)
 	rec := &zzInRec{}
